@@ -408,6 +408,10 @@ def run(rep: Report, ctx: Any) -> str:
 
     from .c08 import check_no_alias
 
+    # a retried reference must find the registries as they were before the failed attempt: stated once for C08 / C12 / C20 (inplace.py)
+    from . import inplace
+
+    inplace.check(rep, ctx, "R20.9")
     rep.rule("R20.5", "a failing reference affects nothing else: the dependency registry does not alias the caller's roots set")
     check_no_alias(rep, ctx, "R20.5")
     rep.not_decided += ["equality of generated code for inline versus referenced components"]
